@@ -91,11 +91,13 @@ Definition prov_update (c : comp) (s : service) : comp * list eff :=
                             if h_reg (cp_host c) then set_target (Some (h_name (cp_host c))) sr else sr)
                            (set_attrs (s_attrs s) (set_name (Some fq) (pv_txtP p))) in
   if negb (match bs_data (r_target (pv_srvP p1)) with [] => true | _ :: _ => false end) then
-    if negb (pv_confirmed p1) || negb (bs_eqb (Some fq) (r_name (pv_srv p1)))
-       || match cp_prober c with Some _ => true | None => false end then
+    if negb (pv_confirmed p1) || negb (bs_eqb (Some fq) (r_name (pv_srv p1))) then
       let '(pb, es) := confirm p1 (cp_prober c) in (mkComp (cp_host c) p1 pb, es)
     else
-      let '(p2, es) := publish p1 in (mkComp (cp_host c) p2 (cp_prober c), es)
+      (* the obsolete prober (if any) is deleted, its timer with it; records pointing at a previous hostname are withdrawn *)
+      let '(p2, e2) := if bs_eqb (r_target (pv_srvP p1)) (r_target (pv_srv p1)) then (p1, []) else farewell p1 in
+      let '(p3, e3) := publish p2 in
+      (mkComp (cp_host c) p3 None, (match cp_prober c with Some _ => [EStop T_PROBER] | None => [] end) ++ e2 ++ e3)
   else (mkComp (cp_host c) p1 (cp_prober c), []).
 
 (* ProviderPrivate::onHostnameChanged *)
